@@ -114,6 +114,4 @@ def _import(nl):
                   [('__gmpz_import', r'byte = \*dp;', 'byte = *dp & 0x7f;'), ('__gmpz_import', r'\(order >= 0 \? \(count-1\)\*size : 0\)', '(order >= 0 ? (count)*size : 0)')] if nl == 0 else []))
 for _n in range(8):
     _u = _import(_n)
-    if _n not in (0, 4):
-        _u['tier'] = 'thorough'
     UNITS.append(_u)
